@@ -445,7 +445,8 @@ class NetworkService(ModelElement):
         assert(isinstance(ns, NetworkService))
         # see if they peer
         sp = self.topo.graph_model.get_nodes_on_shortest_path(node_a=self.node_id, node_z=ns.node_id)
-        if len(sp) == 0:
+        # two peered services are exactly one link apart: service - port - link - port - service
+        if len(sp) != 5:
             raise TopologyException(f"Network services {self.name} and {ns.name} do not peer!")
         # remove ConnectionPoints and link between them
         self.topo.graph_model.remove_cp_and_links(node_id=sp[1])
